@@ -17,8 +17,10 @@ VERIF = os.path.dirname(os.path.dirname(os.path.abspath(__file__)))
 REPO = os.environ.get("SIGC_REPO", "/repo")
 LEAN = os.path.join(VERIF, "lean")
 CACHE = os.path.join(VERIF, ".cache")
-EVIDENCE = os.path.join(VERIF, "evidence")
-REPLAYS = os.path.join(VERIF, "replays_out")
+# (VERIF_OUT_DIR redirects evidence and replay files, e.g. when a check is run against a seeded mutation)
+_OUT = os.environ.get("VERIF_OUT_DIR")
+EVIDENCE = os.path.join(_OUT, "evidence") if _OUT else os.path.join(VERIF, "evidence")
+REPLAYS = os.path.join(_OUT, "replays_out") if _OUT else os.path.join(VERIF, "replays_out")
 NCPU = os.cpu_count() or 4
 
 ALLOWED_AXIOMS = {"propext", "Quot.sound", "Classical.choice"}
